@@ -14,7 +14,8 @@ GATES = [
     ("UNREQUESTED", "C14", "no Data beyond the Pulls received (pullable mode)"),
     ("UP_KIND", "C04", "only Pull/Terminate/Error go upstream"),
     ("UP_GREETED", "C04", "nothing is sent to an upstream before it greeted"),
-    ("UP_PULL_LIVE", "C04", "no Pull to an upstream that is over"),
+    ("UP_PULL_LIVE", "C04", "no Pull to an upstream that was terminated"),
+    ("UP_PULL_SELF", "C04", "no Pull to an upstream that ended by itself"),
     ("UP_PULL_OVER", "C04", "no Pull to a member that is over, once the output itself is over"),
     ("UP_TERM_ONCE", "C04", "an upstream is terminated at most once"),
     ("UP_TERM_SELF", "C04", "no termination of an upstream that ended by itself"),
@@ -29,7 +30,8 @@ GATES = [
     ("NESTED", "C15", "no delivery begins while an earlier one is in progress"),
     ("ERR_ID", "C05", "the error delivered is the error received"),
     ("MERGE_DONE", "C08", "merge completes the sink only when every member has completed"),
-    ("OP2", "C10", "operator-specific clause 2"),
+    ("COMBINE_TUPLE", "C10", "every tuple holds the latest value of every member, and none is emitted before all have one"),
+    ("COMBINE_DONE", "C10", "combine completes the sink only after every member has ended"),
     ("OP3", "C12", "operator-specific clause 3"),
     ("OP4", "C16", "operator-specific clause 4"),
 ]
